@@ -9,7 +9,7 @@ MUTANTS = [
     {'name': 'exporter mutates the part', 'file': 'partitura/io/exportmusicxml.py', 'old': '        for measure in part.iter_all(score.Measure):\n            part_e.append', 'new': '        for measure in part.iter_all(score.Measure):\n            measure.number = measure.number\n            part_e.append', 'expect': 'F1'},
     {'name': 'stack not drained', 'file': 'partitura/io/exportmusicxml.py', 'old': '    close_group_stack()\n\n    if out:', 'new': '    if out:', 'expect': 'GROUPS'}]
 
-NEUTRALS = [{'name': 'rename local in _handle_sound', 'file': 'partitura/io/importmusicxml.py', 'old': '        tempo = score.Tempo(int(e.attrib["tempo"]), "q")\n        # part.add_starting_object(position, tempo)\n        _add_tempo_if_unique(position, part, tempo)', 'new': '        tmp = score.Tempo(int(e.attrib["tempo"]), "q")\n        _add_tempo_if_unique(position, part, tmp)'},
+NEUTRALS = [{'name': 'tie key through a local', 'file': 'partitura/io/importmusicxml.py', 'old': '        tie_key = ("tie", getattr(note, "midi_pitch", "rest"))\n', 'new': '        sounding = getattr(note, "midi_pitch", "rest")\n        tie_key = ("tie", sounding)\n'}, {'name': 'rename local in _handle_sound', 'file': 'partitura/io/importmusicxml.py', 'old': '        tempo = score.Tempo(int(e.attrib["tempo"]), "q")\n        # part.add_starting_object(position, tempo)\n        _add_tempo_if_unique(position, part, tempo)', 'new': '        tmp = score.Tempo(int(e.attrib["tempo"]), "q")\n        _add_tempo_if_unique(position, part, tmp)'},
     {'name': 'reorder articulation list', 'file': 'partitura/io/exportmusicxml.py', 'old': '    "accent",\n    "breath-mark",', 'new': '    "breath-mark",\n    "accent",'}]
 
 # changes made by sub-agents that were given only the property text (see /verif/seeded/<id>/): each must stay reported
